@@ -1,66 +1,218 @@
 import BobModel.Model.StringParser
+import BobModel.Model.SubstSpec
+import BobModel.Proofs.C17Fuel
+import BobModel.Proofs.C17Sem
+import BobModel.Proofs.C17Main
+import BobModel.Proofs.C17Cond
 /-
 C17 — property theorems about the model of pym/bob/stringparser.py.
-Only statements that mention the property live here; helper lemmas are in Proofs/.
+Only statements that mention the property live here; helper lemmas are in Proofs/C17*.lean.
+
+`StringParser` (Model/StringParser.lean) is the transliterated parser, `SubstSpec`
+(Model/SubstSpec.lean) the documented language as a tree with `render` and `eval`.
 -/
 namespace C17
-open StringParser
+open StringParser SubstSpec
+
+/-! ### fast path -/
 
 /-- the fast-path trigger set of `parse` covers the escape character and every base delimiter:
 this is what makes skipping the parser sound.  Re-checked against the constants extracted
 from the current source. -/
 theorem trigger_covers :
     Consts.C17.trigger.contains Consts.C17.escapeChar = true ∧
-    ∀ c ∈ Consts.C17.baseDelims, Consts.C17.trigger.contains c = true := by
-  decide
-
-theorem plain_not_delim (c : Char) (hc : Consts.C17.trigger.contains c = false) :
-    isDelim [] c = false ∧ c ≠ Consts.C17.escapeChar := by
-  constructor
-  · unfold isDelim
-    cases hb : Consts.C17.baseDelims.contains c with
-    | false => simp
-    | true =>
-      have := trigger_covers.2 c (by simpa using hb)
-      rw [this] at hc; cases hc
-  · intro heq
-    have := trigger_covers.1
-    rw [← heq, hc] at this; cases this
-
-theorem scan_plain (text acc : Str)
-    (h : ∀ c ∈ text, Consts.C17.trigger.contains c = false) :
-    scan [] text acc = .ok (acc.reverse ++ text, []) := by
-  induction text generalizing acc with
-  | nil => simp [scan]
-  | cons c rest ih =>
-    have ⟨hd, he⟩ := plain_not_delim c (h c (by simp))
-    rw [scan.eq_def]
-    simp only [hd, he, Bool.false_eq_true, if_false]
-    rw [ih (c :: acc) (fun d hd' => h d (by simp [hd']))]
-    simp
+    ∀ c ∈ Consts.C17.baseDelims, Consts.C17.trigger.contains c = true :=
+  trigger_covers'
 
 /-- **fast path transparency**: on a text without trigger characters the full parser returns the
 text unchanged, so the shortcut in `parse` never changes a result. -/
 theorem fastpath_transparent (cfg : Cfg) (text : Str) (h : hasMeta text = false) :
-    getString cfg (fuelFor text) [] true false true text = .ok (text, []) := by
-  have hall : ∀ c ∈ text, Consts.C17.trigger.contains c = false := by
-    intro c hc
-    unfold hasMeta at h
-    rw [List.any_eq_false] at h
-    simpa using h c hc
-  cases text with
-  | nil => simp [fuelFor, getString, nextToken]
-  | cons c rest =>
-    have ⟨hd, _⟩ := plain_not_delim c (hall c (by simp))
-    have hs := scan_plain (c :: rest) [] hall
-    simp only [fuelFor, List.length_cons]
-    rw [show 2 * (rest.length + 1) + 4 = (2 * rest.length + 4) + 1 + 1 by omega]
-    simp only [getString, nextToken, hd, hs]
-    simp
+    getString cfg (fuelFor text) [] true false true text = .ok (text, []) :=
+  getString_plain cfg text h
 
 /-- a string without meta characters is returned unchanged -/
 theorem no_meta_identity (cfg : Cfg) (text : Str) (h : hasMeta text = false) :
     parse cfg text = .ok text := by
   simp [parse, h]
+
+/-! ### text protected by the documented quoting rules comes back unchanged -/
+
+/-- single quotes protect everything except a single quote -/
+theorem protect_single (cfg : Cfg) (s : Str) (h : '\'' ∉ s) :
+    parse cfg ('\'' :: s ++ ['\'']) = .ok s := by
+  have hs : s.contains '\'' = false := by simpa using h
+  have := GS_sq cfg [] true false true s [] (by decide) hs _ (GS_eos cfg [] false true)
+  rw [parse_of_eventually cfg _ _ this]
+  simp [valOf]
+
+/-- a backslash in front of every character protects any text -/
+theorem protect_backslash (cfg : Cfg) (s : Str) :
+    parse cfg (s.flatMap fun c => ['\\', c]) = .ok s := by
+  have := parse_of_eventually cfg _ _ (GS_escAll cfg s)
+  simpa [escAll, valOf] using this
+
+/-- double quotes protect any text once each of `\ " ' $` in it carries a backslash -/
+theorem protect_double (cfg : Cfg) (s : Str) :
+    parse cfg ('"' :: escMeta s ++ ['"']) = .ok s := by
+  have h1 := GS_escMeta cfg true s []
+  have := GS_dq_ok cfg [] true false true _ s [] (by decide) _ h1 (GS_eos cfg [] false true)
+  rw [List.cons_append, parse_of_eventually cfg _ _ this]
+  simp [valOf]
+
+/-! ### conditions: boolean interpretation, infix form = function-call form -/
+
+/-- `isFalse v` iff the stripped, lower-cased value is one of the documented false strings
+(`Consts.C17.falsy` is extracted from the current source) -/
+theorem isFalse_spec (v : Str) :
+    isFalse v = true ↔ (strip v).map asciiLower ∈ Consts.C17.falsy.map String.toList := by
+  rw [falsy_table]
+  unfold StringParser.isFalse
+  simp only [Bool.or_eq_true, decide_eq_true_eq, List.mem_cons, List.not_mem_nil, or_false, or_assoc]
+
+/-- `l == r` has the truth value of `$(eq,l,r)` -/
+theorem infix_eq_funcall (cfg : Cfg) (l r : IfExpr) (a b : Str)
+    (hl : l.evalStr cfg = .ok a) (hr : r.evalStr cfg = .ok b) :
+    (IfExpr.strOp "==" l r).eval cfg = (callFun cfg "eq".toList [a, b]).map isTrue := by
+  have hc : callFun cfg "eq".toList [a, b] = .ok (boolStr (a = b)) := rfl
+  rw [IfExpr.eval, hl, hr, hc]
+  simp [strCmp, Except.map, isTrue_boolStr]
+
+/-- `l != r` has the truth value of `$(ne,l,r)` -/
+theorem infix_ne_funcall (cfg : Cfg) (l r : IfExpr) (a b : Str)
+    (hl : l.evalStr cfg = .ok a) (hr : r.evalStr cfg = .ok b) :
+    (IfExpr.strOp "!=" l r).eval cfg = (callFun cfg "ne".toList [a, b]).map isTrue := by
+  have hc : callFun cfg "ne".toList [a, b] = .ok (boolStr (a ≠ b)) := rfl
+  rw [IfExpr.eval, hl, hr, hc]
+  simp [strCmp, Except.map, isTrue_boolStr]
+
+/-- `!e` has the truth value of `$(not,e)` -/
+theorem infix_not_funcall (cfg : Cfg) (e : IfExpr) (a : Str) (he : e.evalStr cfg = .ok a) :
+    (IfExpr.not e).eval cfg = (callFun cfg "not".toList [a]).map isTrue := by
+  have hc : callFun cfg "not".toList [a] = .ok (boolStr (isFalse a)) := rfl
+  rw [IfExpr.eval, eval_of_evalStr cfg e a he, hc]
+  simp [Except.map, StringParser.isTrue, isFalse_boolStr]
+
+/-- `l && r` has the truth value of `$(and,l,r)` -/
+theorem infix_and_funcall (cfg : Cfg) (l r : IfExpr) (a b : Str)
+    (hl : l.evalStr cfg = .ok a) (hr : r.evalStr cfg = .ok b) :
+    (IfExpr.boolOp "&&" l r).eval cfg = (callFun cfg "and".toList [a, b]).map isTrue := by
+  have hc : callFun cfg "and".toList [a, b] = .ok (boolStr ([a, b].all isTrue)) := rfl
+  rw [IfExpr.eval, eval_of_evalStr cfg l a hl, eval_of_evalStr cfg r b hr, hc]
+  simp [Except.map, isTrue_boolStr]
+
+/-- `l || r` has the truth value of `$(or,l,r)` -/
+theorem infix_or_funcall (cfg : Cfg) (l r : IfExpr) (a b : Str)
+    (hl : l.evalStr cfg = .ok a) (hr : r.evalStr cfg = .ok b) :
+    (IfExpr.boolOp "||" l r).eval cfg = (callFun cfg "or".toList [a, b]).map isTrue := by
+  have hc : callFun cfg "or".toList [a, b] = .ok (boolStr ([a, b].any isTrue)) := rfl
+  rw [IfExpr.eval, eval_of_evalStr cfg l a hl, eval_of_evalStr cfg r b hr, hc]
+  simp [Except.map, isTrue_boolStr]
+
+/-! ### termination: the fuel of the model is never exhausted -/
+
+/-- an `.ok` result never returns more input than it was given (any fuel) -/
+theorem rest_not_longer (cfg : Cfg) (n : Nat) (extra : List Char) (eosOk keep subst : Bool)
+    (inp s rest : Str) (h : getString cfg n extra eosOk keep subst inp = .ok (s, rest)) :
+    rest.length ≤ inp.length :=
+  getString_rest_le cfg n extra eosOk keep subst inp s rest h
+
+/-- more fuel never changes a result that was not `outOfFuel` -/
+theorem fuel_monotone (cfg : Cfg) (n m : Nat) (hnm : n ≤ m) (extra : List Char)
+    (eosOk keep subst : Bool) (inp : Str)
+    (h : getString cfg n extra eosOk keep subst inp ≠ .error .outOfFuel) :
+    getString cfg m extra eosOk keep subst inp = getString cfg n extra eosOk keep subst inp :=
+  mono_le cfg hnm extra eosOk keep subst inp h
+
+/-- **the parser terminates**: with the fuel `2 * length + 4` that `parse` provides, `outOfFuel` is
+unreachable for every text, environment and flag: every path of the recursive descent ends in a
+value or one of the declared parse errors. -/
+theorem parse_total (cfg : Cfg) (text : Str) : parse cfg text ≠ .error .outOfFuel := by
+  rw [parse_eq]
+  have ht := getString_total cfg (fuelFor text) [] true false true text (by unfold fuelFor; omega)
+  intro h
+  apply ht
+  cases hg : getString cfg (fuelFor text) [] true false true text with
+  | error e =>
+    rw [hg] at h
+    simp only [valOf, Except.error.injEq] at h
+    rw [h]
+  | ok p =>
+    rw [hg] at h
+    obtain ⟨s, r⟩ := p
+    simp [valOf] at h
+
+/-! ### the main theorem: the parser computes the documented value -/
+
+/-- **`parse (render t) = eval t`** for every well-formed fragment tree `t` of the documented
+grammar (all forms, arbitrary nesting), every environment and both `nounset` settings — values
+*and* error kinds.  `WF` only excludes trees that have no concrete syntax (see Model/SubstSpec.lean). -/
+theorem subst_render_eval (fs : List Frag) (cfg : Cfg) (h : WF fs) :
+    parse cfg (render fs) = eval cfg fs :=
+  parse_render cfg fs h
+
+/-- with substitution switched off (which is how an untaken branch is evaluated) nothing raises -/
+theorem untaken_never_raises (cfg : Cfg) (fs : List Frag) : ∃ v, evalL cfg false fs = .ok v :=
+  evalL_off cfg fs
+
+/-- **laziness of `${name:-default}`**: if the variable counts as set, the result is its value —
+whatever the default contains (unset variables under `nounset`, unknown functions, wrong arity …) -/
+theorem lazy_untaken (cfg : Cfg) (name d : List Frag) (colon : Bool) (n : Str)
+    (hwf : WF [.dflt name colon d]) (hn : evalL cfg true name = .ok n)
+    (hset : isUnset cfg colon n = false) :
+    parse cfg (render [.dflt name colon d]) = .ok ((lookup cfg.env n).getD []) := by
+  rw [subst_render_eval _ cfg hwf]
+  obtain ⟨dv, hd⟩ := evalL_off cfg d
+  simp [eval, evalL, Frag.eval, hn, hset, hd]
+
+/-- **laziness of `${name:+alternate}`**: if the variable counts as unset, the result is empty —
+whatever the alternate contains -/
+theorem lazy_untaken_alt (cfg : Cfg) (name a : List Frag) (colon : Bool) (n : Str)
+    (hwf : WF [.altv name colon a]) (hn : evalL cfg true name = .ok n)
+    (hunset : isUnset cfg colon n = true) :
+    parse cfg (render [.altv name colon a]) = .ok [] := by
+  rw [subst_render_eval _ cfg hwf]
+  obtain ⟨av, ha⟩ := evalL_off cfg a
+  simp [eval, evalL, Frag.eval, hn, hunset, ha]
+
+/-! ### non-vacuity: the hypotheses are satisfiable by non-trivial instances -/
+
+-- a three-level nested tree is well-formed and has the expected concrete syntax
+example : WF exTree := by decide
+example : render exTree = "\"${A:-$(if-then-else,${B},'x,y',\\))}\"".toList := by decide
+
+-- `subst_render_eval` on it: A empty (default taken, B true / B false), A set, everything unset
+example : parse (exCfg [(['A'], []), (['B'], ['1'])]) (render exTree) = .ok ['x', ',', 'y'] := by
+  rw [subst_render_eval _ _ (by decide)]; rfl
+example : parse (exCfg [(['B'], ['0'])]) (render exTree) = .ok [')'] := by
+  rw [subst_render_eval _ _ (by decide)]; rfl
+example : parse (exCfg [(['A'], ['v']), (['B'], ['1'])]) (render exTree) = .ok ['v'] := by
+  rw [subst_render_eval _ _ (by decide)]; rfl
+example : parse (exCfg []) (render exTree) = .error .unsetVar := by
+  rw [subst_render_eval _ _ (by decide)]; rfl
+
+-- `lazy_untaken`: `${A:-$U$(nofun,x)}` with A set gives A although `$U` is unset under `nounset`
+-- and `nofun` does not exist; with A unset the very same default does raise
+example : parse (exCfg [(['A'], ['v'])]) (render exLazy) = .ok ['v'] :=
+  lazy_untaken _ (lits ['A']) _ true ['A'] (by decide) rfl rfl
+example : parse (exCfg []) (render exLazy) = .error .unsetVar := by
+  rw [subst_render_eval _ _ (by decide)]; rfl
+example : parse (exCfg [(['U'], ['u'])]) (render exLazy) = .error .unknownFun := by
+  rw [subst_render_eval _ _ (by decide)]; rfl
+
+-- `lazy_untaken_alt`: `${A:+$U}` with A unset is empty although `$U` is unset under `nounset`
+example : parse (exCfg []) (render [.altv (lits ['A']) true [.bare ['U']]]) = .ok [] :=
+  lazy_untaken_alt _ (lits ['A']) _ true ['A'] (by decide) rfl rfl
+
+-- `infix_eq_funcall` / `infix_and_funcall`: operands with a string value exist
+example : (IfExpr.strOp "==" (.lit ['a'] false) (.lit ['a'] false)).eval (exCfg []) = .ok true := by
+  rw [infix_eq_funcall (exCfg []) _ _ ['a'] ['a'] rfl rfl]; rfl
+example : (IfExpr.boolOp "&&" (.lit ['1'] false) (.lit ['0'] false)).eval (exCfg []) = .ok false := by
+  rw [infix_and_funcall (exCfg []) _ _ ['1'] ['0'] rfl rfl]; rfl
+
+-- the protection theorems on a text consisting only of special characters
+example : parse (exCfg []) ("'\\\"$'".toList) = .ok ("\\\"$".toList) :=
+  protect_single _ ['\\', '"', '$'] (by decide)
+example : parse (exCfg []) (escAll ['\\', '"', '\'', '$']) = .ok ['\\', '"', '\'', '$'] :=
+  protect_backslash _ _
 
 end C17
